@@ -16,21 +16,19 @@
    C16_builder_write_fault (quantified over arbitrary part encodings, hence over
    these); the correspondence run compares all three sinks on every case.
 
-   (Status after the completion round: C10_checksums_verify, C10_transport_rfc_layout and
-   C10_next_protocol_fields below prove the two consistency items listed here; see the
-   parse-back section for what is proved of C10_parse_back.)
-   NOT proved in the first round, checked on every case of the correspondence run
-   (crate parser = wire reference decoder of C03 = `expected` view of Builder/Spec.v;
-   independent RFC reference encoder and RFC 1071 verification in tools/props/c10.py):
-     C10_parse_back (full):  forall c p bs, cfg_wf c = true -> parse_pre c (len p) = true ->
-        build e c p = BOk bs ->
-        (match c_link c with LkEthernet2 _ _ => wire_ethernet bs | LkLinuxSll _ _ _ => wire_linux_sll bs
-                           | LkNone => wire_from_ip bs end) = VOk (expected c (len p))
-     C10_consistent for the TCP / ICMPv4 / ICMPv6 checksums (`verifies (pseudo ++ drop off_transport bs)`)
-     and for the ether type / next-header bytes of the link, VLAN and extension headers.
-   Proved parts of parse-back: C10_parse_back_ipv4_header_partial, C10_parse_back_tcp_partial.
-   Completion round: C10_parse_back is now proved in full (all families, extension headers
-   included, view expected_x); nothing of the three items above is left to the oracle alone. *)
+   Round 1 left three groups of statements to the per-case oracle; they are proved now:
+     - all transport checksums (TCP incl. options, ICMPv4, ICMPv6, UDP) verify and equal the
+       RFC 1071 value with the field zeroed:              C10_checksums_verify, C10_transport_rfc_layout
+     - ether type / protocol / next-header bytes of link, VLAN, IP and extension headers:
+                                                          C10_next_protocol_fields
+     - full wire parse-back, every family, extension headers included (view expected_x of
+       Builder/SpecX.v; the round-1 target with `parse_pre` / `expected` is the corollary
+       C10_parse_back_no_exts):                           C10_parse_back, C10_parse_back_ether_type
+     - the values behind the windows:                     C10_layers_as_configured,
+       C10_parse_back_ipv4_header_partial, C10_parse_back_tcp_partial (C08 decoders)
+   Still checked per case only (crate parser = wire reference decoder; independent RFC reference
+   encoder and RFC 1071 verification in tools/props/c10.py): what the decoder answers for the
+   payloads excluded by `payload_admitted`, and the typed ICMP kinds other than Unknown / Echo. *)
 From EP Require Import Base.Bytes Checksum.Spec Checksum.Model.
 From EP Require Roundtrip.Common Roundtrip.Tcp Roundtrip.Ipv4 ExtChain.Spec ExtChain.Model BitFields.Model.
 From EP Require Import Parse.Types Parse.View Parse.WireSpec.
